@@ -699,3 +699,41 @@ define void @g() {
   %5 = fadd float %3, 1.0
   ret void
 }
+;;; ATOM inst/alloca-count-one-of-other-types
+define void @f() {
+  %a = alloca i32, i64 1
+  %b = alloca i8, i16 1, align 2
+  %c = alloca i32, i32 1
+  %d = alloca i32, i8 1, addrspace(0)
+  %e = alloca i64, i64 2
+  ret void
+}
+;;; ATOM inst/call-through-named-variadic-function-type
+%log_t = type void (i8*, ...)
+%printf_t = type i32 (i8*, ...)
+@fp = global %printf_t* null
+@fmt = constant [4 x i8] c"%d\0A\00"
+define i32 @main(i32 %argc) {
+  %1 = load %printf_t*, %printf_t** @fp
+  %2 = getelementptr [4 x i8], [4 x i8]* @fmt, i64 0, i64 0
+  %3 = call i32 (i8*, ...) %1(i8* %2, i32 %argc)
+  ret i32 %3
+}
+define i32 @g(%log_t* %log, i8* %msg) {
+  call void (i8*, ...) %log(i8* %msg, i32 1)
+  %1 = add i32 1, 2
+  call void (i8*, ...) %log(i8* %msg)
+  ret i32 %1
+}
+;;; ATOM inst/gep-struct-index-literal-beyond-32-bits
+@g = global { i32, i64 } zeroinitializer
+@p = global i64* getelementptr ({ i32, i64 }, { i32, i64 }* @g, i32 0, i32 4294967297)
+define i64* @f({ i32, i64 }* %p) {
+  %q = getelementptr { i32, i64 }, { i32, i64 }* %p, i32 0, i32 4294967297
+  ret i64* %q
+}
+;;; ATOM inst/gep-struct-index-vector-literals-beyond-32-bits
+define <2 x i64*> @v(<2 x { i32, i64 }*> %p) {
+  %q = getelementptr { i32, i64 }, <2 x { i32, i64 }*> %p, <2 x i32> zeroinitializer, <2 x i32> <i32 8589934593, i32 1>
+  ret <2 x i64*> %q
+}
